@@ -744,12 +744,20 @@ def oracle_saveload(case, obs):
 
 
 def oracle_history(case, obs):
+    f = oracle_history_events(case, obs)
+    if f is not None:
+        return f
+    for i, (ev, st) in enumerate(zip(case["events"], obs["steps"])):
+        if "other" in (st["before"], st["after"]):
+            return dict(key="hist:cache-file-differs", what=f"after event {i} the cache file loads to something else "
+                        "than the fresh computation", event=ev)
+    return None
+
+
+def oracle_history_events(case, obs):
     mat = False                     # reference automaton: is the live object materialized
     for i, (ev, st) in enumerate(zip(case["events"], obs["steps"])):
         before, after = st["before"], st["after"]
-        if "other" in (before, after):
-            return dict(key="hist:cache-file-differs", what=f"after event {i} the cache file loads to something else "
-                        "than the fresh computation", event=ev)
         if "skipped" in st:
             continue
         if ev["e"] == "derived":
